@@ -57,6 +57,40 @@ def m_merged(dump):
     return out
 
 
+def v_field_attrs(f, j):
+    a = []
+    if f["stop"]:
+        a.append("#[o2o(stop_repeat)]")
+    if f["rep"]:
+        inner = (["permeate()"] if f["perm"] else []) + sorted(f["cats"])
+        a.append("#[o2o(repeat(" + ", ".join(inner) + "))]" if inner else "#[o2o(repeat)]")
+    if f["skip"]:
+        a.append("#[o2o(skip_repeat)]")
+    return a
+
+
+def v_enum(c, unrolled):
+    """enum whose variants are tuple variants; field j of the flat list is a payload field of variant fs[j].v"""
+    variants = {}
+    for j, f in enumerate(c["fs"], 1):
+        if unrolled:
+            # the member's own instructions first, the repeated ones after them (a repeated instruction never overrides an own one)
+            attrs = [m_instr(x, j) for x in sorted(f["own"])] + [m_instr(e["c"], e["t"]) for e in sorted(c["eff"][j - 1], key=lambda e: (e["c"], e["t"])) if e["t"] != j]
+        else:
+            attrs = v_field_attrs(f, j) + [m_instr(x, j) for x in sorted(f["own"])]
+        variants.setdefault(f["v"], []).append(" ".join(attrs) + " V,")
+    body = " ".join(f"V{v}({' '.join(fs)})," for v, fs in sorted(variants.items()))
+    return f"#[from_owned(D)] #[from_ref(D)] enum S {{ {body} }}"
+
+
+def v_merged(dump):
+    out = []
+    for var in dump["members"]:
+        for mem in var["fields"]:
+            out += m_merged({"members": [mem]})
+    return out
+
+
 T_PARAM = {"vars": lambda t: f"vars(v: {{tg{t}()}})", "update": lambda t: f"..upd{t}()", "quick_return": lambda t: f"return r{t}()", "default_case": lambda t: f"_ => d{t}()"}
 ORDER = ["vars", "update", "quick_return", "default_case"]
 CATNAME = {"vars": "vars", "update": "update", "quick_return": "quick_return", "default_case": "default_case"}
@@ -116,7 +150,8 @@ def t_merged(dump):
 def run(tier, seed):
     ctx = core.Ctx("C14", tier, seed, LEVEL)
     trace, srcs = [], {}
-    plan = [("member", "MC_C14_mq"), ("trait", "MC_C14_tq"), ("trait", "MC_C14_tq2")] if tier == "quick" else [("member", "MC_C14_mt"), ("trait", "MC_C14_tt")]
+    plan = ([("member", "MC_C14_mq"), ("trait", "MC_C14_tq"), ("trait", "MC_C14_tq2"), ("vfield", "MC_C14_vq")] if tier == "quick"
+            else [("member", "MC_C14_mt"), ("trait", "MC_C14_tt"), ("vfield", "MC_C14_vt")])
     for lvl, cfg in plan:
         r = core.tlc("MC_C14", cfg, workers=12, timeout=3000)
         if not r.ok:
@@ -126,11 +161,11 @@ def run(tier, seed):
         if lvl == "trait":
             # a tail parameter (`..`, `return`, `_ =>`) swallows the rest of the stream: at most one can be WRITTEN per instruction
             cases = [c for c in cases if all(sum(1 for p in t["own"] if p != "vars") <= 1 for t in c["ts"])]
-        orig = m_orig if lvl == "member" else t_orig
-        unr = m_unrolled if lvl == "member" else t_unrolled
+        orig = m_orig if lvl == "member" else (lambda c: v_enum(c, False)) if lvl == "vfield" else t_orig
+        unr = m_unrolled if lvl == "member" else (lambda c: v_enum(c, True)) if lvl == "vfield" else t_unrolled
         inp = []
         for i, c in enumerate(cases):
-            wr = True if lvl == "member" else t_writable(c)
+            wr = True if lvl in ("member", "vfield") else t_writable(c)
             inp.append({"id": i, "srcs": [orig(c), unr(c) if (wr and not c["conflict"]) else orig(c)]})
         res = core.expand(inp, "syn1", events=True)
         for i, (c, rr) in enumerate(zip(cases, res)):
@@ -138,12 +173,12 @@ def run(tier, seed):
             dump = [e for e in a.get("events", []) if e.get("ev") == "parsed"]
             merged = []
             if dump:
-                merged = m_merged(dump[0]) if lvl == "member" else t_merged(dump[0])
+                merged = m_merged(dump[0]) if lvl == "member" else v_merged(dump[0]) if lvl == "vfield" else t_merged(dump[0])
             rid = f"{cfg}:{i}"
             srcs[rid] = inp[i]["srcs"]
-            trace.append({"id": rid, "lvl": lvl, "s": c["ms"] if lvl == "member" else c["ts"], "v1": a["verdict"], "v2": b["verdict"],
+            trace.append({"id": rid, "lvl": lvl, "s": c["ms"] if lvl == "member" else c["fs"] if lvl == "vfield" else c["ts"], "v1": a["verdict"], "v2": b["verdict"],
                           "same": a.get("out") == b.get("out"), "merged": merged,
-                          "writable": (True if lvl == "member" else t_writable(c))})
+                          "writable": (True if lvl in ("member", "vfield") else t_writable(c))})
     ok, mism, st = core.judge("Trace_C14", trace, tag="c14", timeout=3000)
     ctx.add_tlc(st)
     for m in mism:
@@ -152,6 +187,7 @@ def run(tier, seed):
     ctx.cov["traces_validated_against_impl"] = ok
     ctx.cov["member_sequences"] = sum(1 for t in trace if t["lvl"] == "member")
     ctx.cov["trait_sequences"] = sum(1 for t in trace if t["lvl"] == "trait")
+    ctx.cov["variant_field_sequences"] = sum(1 for t in trace if t["lvl"] == "vfield")
     ctx.cov["conflicting_sequences"] = sum(1 for t in trace if t["v1"] == "err")
     ctx.cov["distinct_nontrivial"] = sum(1 for t in trace if any(x["rep"] for x in t["s"]))
     ctx.cov["rule"] = ("TLC enumerates every sequence of <= MaxLen members (own instruction categories x repeat with / without category filter x stop_repeat x "
